@@ -42,7 +42,7 @@ Section Tables.
 
   (** Const.Val().String(): numbers as written, strings with Go quotes *)
   Definition go_val_string (m : emember) : string :=
-    match em_val m with CStr v => String dquote (v ++ String dquote EmptyString) | _ => em_exact m end.
+    match em_val m with CStr v => String dquote (v ++ String dquote EmptyString) | CFloat d => d | _ => em_exact m end.
 
   Definition dart_enum_values (e : enum) : list string := map go_val_string (filter em_exported (en_members e)).
 End Tables.
